@@ -18,4 +18,6 @@ reg("C05",
                "state of a consumer that never disconnected; final-only variant; serving obligation) is evaluated on the implementation's answers.",
     trusted_base=["bursts are requested through forkable.Forkable.CallWithBlocks* (what ForkableHub.SourceFrom* call under the lock); the hub's "
                   "subscription plumbing is covered by C08/C09", "serving obligation uses the implementation's own lookups (CanonicalBlockAt, GetBlockByHash) as oracle for 'retained'"],
-    assumptions=["wf_b universe; lib_ok LIB declarations; cursors minted by the same history"])
+    assumptions=["wf_b universe; lib_ok LIB declarations; cursors minted by the same history"],
+    codes={1: "model-mismatch", 2: "property-checker-rejects-impl", 3: "mismatch+property", 4: "impl-panic",
+           6: "through-cursor-refused-forked-below-hub-lib"})
